@@ -32,7 +32,7 @@ ASSUMPTIONS = [
 ]
 EXHAUSTIVE = {'quick': True, 'thorough': True}
 PLACEMENTS = ['first2', 'first3', 'hospital', 'lecturer']
-NMAX = {'quick': 11, 'thorough': 14}
+NMAX = {'quick': 11, 'thorough': 16}
 
 
 def budget(tier):
